@@ -54,9 +54,13 @@ fn format_field(name: &str, value: &str) -> String {
         | "Enhances"
         | "Pre-Depends"
         | "Breaks" => {
-            let relations: Relations = value.parse().unwrap();
-            let relations = relations.wrap_and_sort();
-            relations.to_string()
+            // Substitution variables (${misc:Depends}) are normal in these fields;
+            // a field that does not parse is left as it is.
+            let (relations, errors) = Relations::parse_relaxed(value, true);
+            if !errors.is_empty() {
+                return value.to_string();
+            }
+            relations.wrap_and_sort().to_string()
         }
         _ => value.to_string(),
     }
